@@ -200,6 +200,18 @@ def _entry_points(ctx, prog, cj):
         if 'pseudo_inverse' in s and 'matrix' in s and 'epsilon' in s and util.is_param(x, 2) and \
                 any(g[0] == 'discr' and 'try_inverse' in show(g, maxdepth=3) and k in (0, 'otherwise') for g, k in gs):
             pinv_ok = True
+    if not (inv_ok and pinv_ok):
+        # one product whose left factor is chosen by a match on try_inverse(): decided per case
+        for bi, c2 in muls:
+            a_raw = vv.op_term(c2['args'][0], (bi, None))
+            x = vv.op_term(c2['args'][1], (bi, None))
+            conds = [c for c in util.branch_conditions(vv, a_raw) if isinstance(c, tuple) and c[0] == 'discr' and 'try_inverse' in show(c, maxdepth=4)]
+            if len(conds) != 1 or not util.is_param(x, 2):
+                continue
+            some = show(util.resolve_case(vv, a_raw, {conds[0]: True}), maxdepth=14)
+            none = show(util.resolve_case(vv, a_raw, {conds[0]: False}), maxdepth=14)
+            inv_ok = 'try_inverse' in some and 'matrix' in some and 'pseudo_inverse' not in some
+            pinv_ok = 'pseudo_inverse' in none and 'matrix' in none and 'epsilon' in none
     ctx.check(inv_ok and pinv_ok, 'R15.2', 'velocities_from_vector', vv.where(0), vv.path,
               'velocities must be try_inverse(J) * X, or pseudo_inverse(J, epsilon) * X exactly when no inverse exists', found='inverse=%s pseudo-inverse=%s' % (inv_ok, pinv_ok))
     nw = J['new']
